@@ -390,13 +390,95 @@ ENCODED = ["twisted.protocols.tls:TLSMemoryBIOProtocol.makeConnection",
            "twisted.protocols.tls:_ContextFactoryToConnectionFactory._connectionForTLS",
            "twisted.protocols.policies:ProtocolWrapper.connectionLost",
            "twisted.protocols.policies:ProtocolWrapper.dataReceived"]
-BOUNDS = {"quick": {"hist": 3, "phist": 3, "fhist": 2, "cap": 1 << 14},
-          "thorough": {"hist": 4, "phist": 4, "fhist": 3, "cap": 1 << 14}}
+BOUNDS = {"quick": {"hist": 3, "phist": 2, "fhist": 3, "cap": 1 << 14},
+          "thorough": {"hist": 4, "phist": 3, "fhist": 3, "cap": 1 << 14}}
 B = {}
-BOUNDS_TEXT = ""
-OUTSIDE = []
-ASSUMPTIONS = []
-EXPLANATION = ""
+BOUNDS_TEXT = ("two real TLSMemoryBIOProtocol instances (client, server) over two in-memory transports and the contract "
+               "model of OpenSSL.SSL.Connection, handshake of 3 (TLS 1.3 like) or 4 (TLS 1.2 like) flights, both "
+               "flavours of the unexpected-EOF error; prefix: the handshake has progressed by pre = 0..4 full "
+               "deliveries (0 = only the ClientHello is in flight, 4 = finished on both sides); then a solver-chosen "
+               "history, then a drain (everything in flight is delivered in both directions until nothing moves, at "
+               "most 8 rounds).  history: hist (quick 3, thorough 4) operations out of {application write of 1..16384 "
+               "bytes with the engine's first send accepting any 1..16384 bytes of it, delivery of any k >= 1 bytes "
+               "of the ciphertext in flight in one direction (partial records and flights included) or of the end "
+               "of the stream, application loseConnection, nothing}, each on either side.  history_prod: one side "
+               "registers a push producer after the prefix, then phist (quick 2, thorough 3) operations out of "
+               "{delivery, loseConnection on either side, producer writes, producer unregisters, underlying "
+               "transport pauses / resumes the producer}; after the drain the producer writes once more if it may "
+               "and unregisters, then a second drain.  history_fail: 3 operations out of "
+               "{write, delivery, loseConnection, abrupt loss of one underlying connection}, at least one loss")
+OUTSIDE = ["the real OpenSSL / pyOpenSSL: cryptography, certificate verification, alerts other than close_notify, "
+           "handshake failures other than a truncated stream, renegotiation / KeyUpdate / NewSessionTicket (so "
+           "WantReadError from send only occurs while the handshake is incomplete), WantWriteError, ALPN / NPN; the "
+           "contract model was written from the documentation and is NOT validated against the real library "
+           "(not installed)",
+           "BufferingTLSTransport / _AggregateSmallWrites (the factory's default protocol; needs a reactor clock and "
+           "joins byte strings) -- TLSMemoryBIOFactory.protocol is set to TLSMemoryBIOProtocol, as the module's own "
+           "tests do; writeSequence (b''.join of the pieces, then write)",
+           "pull producers (wrapped by _PullToPush, which needs the global reactor's cooperator), producers that "
+           "write or unregister re-entrantly from inside pauseProducing / resumeProducing, registering a producer "
+           "after loseConnection",
+           "application writes larger than 16 KiB (more than one record per write; short sends exercise the same "
+           "loop), empty writes, abortConnection / failVerification called by the application, startTLS "
+           "(_connectWrapped=False), TLS over TLS",
+           "histories longer than pre + hist operations; interleavings in which a transport that was told to close "
+           "reports connectionLost later than at the end of the current operation; operations issued re-entrantly "
+           "from dataReceived / connectionLost of the application",
+           "half-close, and what a real TCP stack does with data in flight towards a side that has already closed "
+           "(the model discards it)"]
+ASSUMPTIONS = [
+    "fake `OpenSSL` package (OpenSSL, OpenSSL.SSL) and a stub `twisted.internet._sslverify` (_setAcceptableProtocols "
+    "only) are in sys.modules only while twisted.protocols.tls is imported; tls.py keeps references to the fake "
+    "Connection / Error / SysCallError / WantReadError / ZeroReturnError",
+    "Connection(context, None) is a memory-BIO endpoint; set_connect_state / set_accept_state choose the role; the "
+    "handshake is a fixed sequence of flights of fixed wire size sent alternately, client first; do_handshake / send "
+    "/ recv drive it as far as the input allows (emitting the own flights into the outgoing BIO) and raise "
+    "WantReadError while the peer's next flight has not arrived COMPLETELY; do_handshake on a finished handshake "
+    "returns None",
+    "bio_write(b) appends to the incoming BIO and returns len(b); bio_read(n) returns up to n pending outgoing bytes "
+    "and raises WantReadError when there are none; the memory BIOs are unbounded (no WantWriteError)",
+    "send(b) after the handshake accepts min(len(b), 16384, solver-chosen count >= 1) bytes, turns them into ONE "
+    "record (5 byte header + payload, identity 'encryption') in the outgoing BIO and returns the count (pyOpenSSL "
+    "enables SSL_MODE_ENABLE_PARTIAL_WRITE); send after the own close_notify raises Error 'protocol is shutdown'",
+    "recv(n) returns the payload (at most n bytes, the rest is kept) of the next record if it has arrived completely, "
+    "raises WantReadError if not, ZeroReturnError once the peer's close_notify record was reached (and on every "
+    "later call); reading goes on after the own close_notify was sent; after bio_shutdown() an incomplete or "
+    "missing record gives the unexpected-EOF error: SysCallError(-1, 'Unexpected EOF') (OpenSSL 1.1) or "
+    "Error([('SSL routines', '', 'unexpected eof while reading')]) (OpenSSL 3) -- solver-chosen flavour; the "
+    "same error from the handshake when the stream ends early",
+    "shutdown(): raises Error ('shutdown while in init') while the handshake is incomplete (OpenSSL >= 1.0.2f); "
+    "first call afterwards emits the close_notify record and returns True iff the peer's close_notify was already "
+    "read, else False; a later call returns True if it has been read, else looks at the next complete record "
+    "(close_notify: True; application data: Error; none: WantReadError)",
+    "get_peer_certificate None, get_alpn_proto_negotiated b'', get/set_shutdown flags SENT_SHUTDOWN = 1 / "
+    "RECEIVED_SHUTDOWN = 2, get/set_app_data, total_renegotiations 0",
+    "the two engines of a connection share the list of records each has emitted (identity encryption: recv hands "
+    "out the very payload object given to send); the ciphertext itself is a rope over a separate region of the "
+    "master stream and every bio_write is checked to continue the peer's ciphertext stream exactly (formula "
+    "wire_ok, part of the verdict), so dropping, duplicating, reordering or inventing ciphertext -- or writing "
+    "plaintext to the transport -- is a violation; in the rope world a buffer that ends at the very end-position "
+    "object of a record marks all records up to it complete without a solver query",
+    "ropes: application data is opaque (client stream = master[0:...], server stream = master[2**22:...]); any "
+    "content access by the code under test raises RopeContentAccess",
+    "in-memory transports with TCP-like semantics: write is accepted until the connection is closed (also after "
+    "loseConnection), loseConnection / abortConnection take effect at the end of the current operation "
+    "(connectionLost(ConnectionDone) to the own protocol; a registered producer gets stopProducing, as "
+    "FileDescriptor.connectionLost does), abortConnection discards undelivered bytes, bytes written before "
+    "loseConnection stay deliverable, the peer sees the end of the stream (connectionLost(ConnectionDone)) only "
+    "after everything in flight was delivered; nothing is delivered to a closed side; an abrupt loss is "
+    "connectionLost(ConnectionLost) at any point",
+    "specification of 'written before its loseConnection': a write counts iff, when it is made, the writer's "
+    "application has not called loseConnection (or still has its producer registered) and the writer's underlying "
+    "transport has not been told to close (the layer has not seen the peer's close_notify or an error); the peer's "
+    "application must never see more than that, always an in-order prefix, and after the drain exactly that unless "
+    "a connection was lost abruptly or the receiving side aborted (loseConnection before the handshake finished "
+    "with nothing buffered aborts by design)",
+    "construction of the world and the handshake prefix run on concrete values with CrossHair's tracing "
+    "switched off (plain interpreter)",
+]
+EXPLANATION = ("real TLSMemoryBIOProtocol pair (ropes for data and ciphertext) against a contract model of "
+               "OpenSSL.SSL.Connection: solver-chosen histories of writes, partial sends, ciphertext segmentation, "
+               "loseConnection, producers and connection loss, then a drain; stream, close and producer oracles")
 
 
 # ---- environment: application protocol, producer, in-memory transport -----------------------------------------
@@ -595,6 +677,7 @@ class _World:
         self.prod = [None, None]
         self.prodreg = [False, False]
         self.failed = False
+        self.tpaused = [False, False]   # the underlying transport has told its producer to pause
         self.late = False           # the producer calls unregisterProducer even after its connection was lost
         self.bad = None
         for s in (0, 1):
@@ -721,6 +804,7 @@ class _World:
         m = self.T[s].producer
         if m is None:
             return False
+        self.tpaused[s] = pause
         if pause:
             m.pauseProducing()
         else:
@@ -871,7 +955,8 @@ def _run(tls13, eof3, pre, ops, ps=None, late=False):
         r, f = w.received(s)
         ok = rope.band(ok, f)
     for s in (0, 1):
-        w.tpause(s, False)          # the transports have room again
+        if w.tpaused[s]:
+            w.tpause(s, False)      # the transports have room again
     if not w.drain(8):
         return False                # the system never comes to rest
     if not w.quick_ok():
@@ -955,7 +1040,7 @@ def history_prod(tls13: bool, eof3: bool, pre: int, ps: bool, late: bool, o0: in
                  o1: int, s1: bool, x1: int, y1: int, o2: int, s2: bool, x2: int, y2: int,
                  o3: int, s3: bool, x3: int, y3: int) -> bool:
     """
-    pre: _all(_rng(0, pre, 4), _pop_pre(o0, x0, y0), _pop_pre(o1, x1, y1), _pop_pre(o2, x2, y2), _pop_pre(o3, x3, y3), o0 != 3, rope.bor(B['phist'] >= 4, o3 == 3))
+    pre: _all(_rng(0, pre, 4), _pop_pre(o0, x0, y0), _pop_pre(o1, x1, y1), _pop_pre(o2, x2, y2), _pop_pre(o3, x3, y3), o0 != 3, rope.bor(B['phist'] >= 4, o3 == 3), rope.bor(B['phist'] >= 3, o2 == 3))
     post: _
     """
     return _run(tls13, eof3, pre, ((o0, s0, x0, y0), (o1, s1, x1, y1), (o2, s2, x2, y2), (o3, s3, x3, y3)), ps, late)
@@ -975,27 +1060,32 @@ def history_fail(tls13: bool, eof3: bool, pre: int, o0: int, s0: bool, x0: int, 
     return _run(tls13, eof3, pre, ((o0, s0, x0, y0), (o1, s1, x1, y1), (o2, s2, x2, y2)))
 
 
-# OPEN finding (if listed in KNOWN_FINDINGS.json): unregisterProducer() after loseConnection() + connectionLost
-# raises AttributeError (tls.py unregisterProducer -> _shutdownTLS -> self._tlsConnection is None)
-EXCLUDE = {"unregister-after-connection-lost": {"history_prod": "not late"}}
-
-
-def classify(harness_name, args):
-    if harness_name == "history_prod" and args.get("late"):
-        return "unregister-after-connection-lost"
-    return None
-
-
 _PT = [("pre == %d" % p, t) for p in range(5) for t in ("tls13", "not tls13")]
 
+
+def _hist_shards(tier):
+    if tier == "quick":
+        return _PT
+    return [sh + ("o0 == %d" % a, b2) for sh in _PT for a in range(3) for b2 in ("s0", "not s0")]
+
+
+def _prod_shards(tier):
+    if tier == "quick":
+        return _PT
+    return [sh + (c,) for sh in _PT for c in ("o0 <= 2", "o0 == 5", "o0 >= 6")]
+
+
 HARNESSES = [
-    H(history, shards=_PT, timeout={"quick": 120, "thorough": 900},
+    H(history, shards=_hist_shards, timeout={"quick": 120, "thorough": 900},
       labels=("end", "ops", "data", "closed", "open", "hs")),
-    H(history_prod, shards=[sh + (l,) for sh in _PT for l in ("not late", "late")],
+    H(history_prod, shards=_prod_shards,
       timeout={"quick": 120, "thorough": 900}, labels=("end", "ops", "data", "closed", "open", "hs")),
     H(history_fail, shards=[("pre == %d" % p,) for p in range(5)], timeout={"quick": 120, "thorough": 900},
       labels=("end", "closed")),
 ]
+
+if __import__("os").environ.get("VERIF_C17_ONLY"):      # debugging aid: run a single harness
+    HARNESSES = [h for h in HARNESSES if h.name == __import__("os").environ["VERIF_C17_ONLY"]]
 
 _N = (3, False, 1, 1)
 VECTORS = {
